@@ -9,7 +9,8 @@
      - a *script* that fixes everything the environment decides: the results of SetWriteDeadline,
        Write and Flush, and for each iteration of the read loop whether the context is done,
        whether the total-timeout timer has fired (when both are ready Go's select picks either
-       case: a script bit), and what the transport's Read returns.
+       case: a script bit), and what the transport's Read returns (a Read may return bytes
+       together with any of its errors).
 
    It returns the outcome of the call and the trace of observable calls the client makes: the
    three ClientHooks callbacks with their arguments, and the transport calls (SetWriteDeadline,
@@ -48,11 +49,13 @@ Definition q_expected (q : creq) : nat :=
 (* what one call of conn.Read / serialPort.Read returns *)
 Inductive rd :=
 | RData (b : list N)      (* n = len b, err = nil *)
-| RTimeout                (* 0, os.ErrDeadlineExceeded *)
+| RTimeout (b : list N)   (* n = len b (usually 0), os.ErrDeadlineExceeded *)
 | REof (b : list N)       (* n = len b, io.EOF *)
 | RIoErr (b : list N).    (* n = len b, any other error *)
 
-Record step := { s_ctx : bool; s_timer : bool; s_pick : bool; s_rd : rd }.
+(* s_ctx: ctx.Done() is closed when the select is reached; s_deadline: ctx.Err() is then
+   context.DeadlineExceeded (the caller's own deadline), otherwise context.Canceled *)
+Record step := { s_ctx : bool; s_deadline : bool; s_timer : bool; s_pick : bool; s_rd : rd }.
 
 Record script := { sc_swd_err : bool; sc_write_err : bool; sc_flush_err : bool; sc_steps : list step }.
 
@@ -63,7 +66,7 @@ Inductive cerr :=
 | CNilRequest          (* errors.New("request can not be nil") *)
 | CNotConnected        (* &ErrClientNotConnected *)
 | CNoPort              (* errors.New("serial port is not set") *)
-| CCtx                 (* ctx.Err() *)
+| CCtx (deadline : bool) (* ctx.Err(): context.Canceled / context.DeadlineExceeded, returned as it is *)
 | CTimeout             (* &ClientError{errors.New("total read timeout exceeded")} *)
 | CNoBytes             (* &ClientError{errors.New("no bytes received")} *)
 | CIo (s : site)       (* &ClientError{Err: err}, err returned by the transport call [s] *)
@@ -122,7 +125,7 @@ Definition delivered (k : kind) (acc : list N) (r : rd) : list N * N :=
   let room := (buf_size k - length acc)%nat in
   match r with
   | RData b => (firstn room b, 0)
-  | RTimeout => ([], 1)
+  | RTimeout b => (firstn room b, 1)
   | REof b => (firstn room b, 2)
   | RIoErr b => (firstn room b, 3)
   end.
@@ -161,7 +164,7 @@ Fixpoint loop (steps : list step) (acc : list N) : dores * list ev :=
       (* select { case <-ctx.Done(): return nil, ctx.Err()
                   case <-readTimeout: return nil, &ClientError{...}
                   default: } *)
-      if s_ctx st && (s_pick st || negb (s_timer st)) then (DFail CCtx, []) else
+      if s_ctx st && (s_pick st || negb (s_timer st)) then (DFail (CCtx (s_deadline st)), []) else
       if s_timer st then (DFail CTimeout, []) else
       (* [net] _ = c.conn.SetReadDeadline(...)
          n, err := Read(received[total:maxBytes]); hooks.AfterEachRead(received[total:total+n], n, err) *)
